@@ -11,11 +11,11 @@ def supported : List Nat := [0, 2, 3, 4, 8, 10, 18, 19]
 
 def tbl : Table Bytes := fun c => if c.toNat ∈ supported then some itemDec else none
 
-def runN1 : Nat → Bytes → List Bytes → List String → String
+def runN1 (dec : Decoder Bytes) : Nat → Bytes → List Bytes → List String → String
   | 0, _, _, acc => "ok " ++ Tok.showList id acc.reverse ++ " end=done"
   | n + 1, temp, chunks, acc =>
-    match recvFullMsg itemDec temp chunks with
-    | .msg m t c => runN1 n t c (Tok.hex m :: acc)
+    match recvFullMsg dec temp chunks with
+    | .msg m t c => runN1 dec n t c (Tok.hex m :: acc)
     | .blocked _ => "ok " ++ Tok.showList id acc.reverse ++ " end=blocked"
     | .error => "ok " ++ Tok.showList id acc.reverse ++ " end=error"
 
@@ -106,9 +106,9 @@ def step (_ : Unit) (toks : List String) : Unit × String :=
     | _, _ => ((), "bad-op")
   | "sent" :: _ => ((), "ok")
   | "sent2" :: _ => ((), "ok")
-  | "n1" :: _proto :: _tag :: count :: chunks =>
+  | "n1" :: proto :: _tag :: count :: chunks =>
     match count.toNat?, chunks.mapM Tok.unhex with
-    | some n, some cs => ((), runN1 n [] cs [])
+    | some n, some cs => ((), runN1 (if proto = "localtxsubmission" then ltxDec else itemDec) n [] cs [])
     | _, _ => ((), "bad-op")
   | "n2" :: _tag :: segs =>
     match segs.mapM seg? with
